@@ -145,8 +145,56 @@ func (x *Exec) doCallVals(st *State, c *ssa.CallCommon, fnv Val, args []Val, con
 	x.callFunction(st, callee, bindings, args, sig, cont, ins)
 }
 
+// libraryModel: built-in effect models for a few reflection-based library functions whose
+// contracts cannot be written in the contract language (they act on the value inside an
+// interface). Listed in the evidence as assumed.
+func (x *Exec) libraryModel(st *State, name string, args []Val, sig *types.Signature) ([]Val, bool) {
+	switch name {
+	case "encoding/json.Unmarshal":
+		// writes only through the pointer passed as v (and allocates); returns an arbitrary error
+		if len(args) == 2 && args[1].Inner != nil && args[1].Inner.Loc != nil && args[1].Inner.Loc.Kind == LRef {
+			l := args[1].Inner.Loc
+			if stt, ok := l.Elem.Underlying().(*types.Struct); ok {
+				x.trusted["model of encoding/json.Unmarshal: writes only the fields of the struct its second argument points to"]++
+				oa := x.heap(st, "$alloc", "Int")
+				na := x.havocHeap(st, "$alloc", "Int")
+				st.assume(fmt.Sprintf("(>= %s %s)", na, oa))
+				for i := 0; i < stt.NumFields(); i++ {
+					hn, hs := x.fieldHeap(l.Elem, i)
+					fv := x.freshConst(st, "json", x.ctx.sortOf(stt.Field(i).Type()))
+					x.assumeWF(st, fv, stt.Field(i).Type())
+					x.setHeap(st, hn, hs, sto(x.heap(st, hn, hs), l.Ref, fv))
+				}
+				return x.freshResults(st, sig), true
+			}
+		}
+	case "sort.Sort":
+		// permutes the elements of the slice inside the sort.Interface value
+		if len(args) == 1 && args[0].Inner != nil && args[0].Inner.Ty != nil {
+			if sl, ok := args[0].Inner.Ty.Underlying().(*types.Slice); ok {
+				x.trusted["model of sort.Sort: every element of the sorted slice is one of its old elements, nothing else changes"]++
+				v := args[0].Inner
+				hn, hs := x.elemHeap(sl.Elem())
+				old := x.heap(st, hn, hs)
+				es := x.ctx.sortOf(sl.Elem())
+				content := x.freshConst(st, "sorted", fmt.Sprintf("(Array Int %s)", es))
+				x.setHeap(st, hn, hs, sto(old, "(s_arr "+v.T+")", content))
+				nw := st.heaps[hn]
+				at := x.atFn(sl.Elem())
+				st.assume(fmt.Sprintf("(forall ((i Int)) (! (=> (and (<= 0 i) (< i (s_len %s))) (exists ((j Int)) (and (<= 0 j) (< j (s_len %s)) (= (%s %s %s i) (%s %s %s j))))) :pattern ((%s %s %s i))))", v.T, v.T, at, nw, v.T, at, old, v.T, at, nw, v.T))
+				return nil, true
+			}
+		}
+	}
+	return nil, false
+}
+
 func (x *Exec) callFunction(st *State, fn *ssa.Function, bindings, args []Val, sig *types.Signature, cont func(*State, []Val), ins ssa.Instruction) {
 	name := fn.String()
+	if res, ok := x.libraryModel(st, name, args, fn.Signature); ok {
+		cont(st, res)
+		return
+	}
 	con := x.contractFor(fn)
 	if con != nil && !con.Inline {
 		var names []string
@@ -666,6 +714,22 @@ func (x *Exec) applyModifies(st *State, env *SpecEnv, con *Contract, item string
 		old := x.heap(st, p.heap, p.sort)
 		elemSort := strings.TrimSuffix(strings.TrimPrefix(p.sort, "(Array Int "), ")")
 		fv := x.freshConst(st, "hv", elemSort)
+		if et, ok := x.heapElem[p.heap]; ok {
+			switch {
+			case strings.HasPrefix(p.heap, "MV$"):
+				cell := fmt.Sprintf("(select %s k)", fv)
+				if wf := x.wfTerm(st, cell, et, 2); wf != "true" {
+					st.assume(fmt.Sprintf("(forall ((k %s)) (! %s :pattern (%s)))", x.heapKey[p.heap], wf, cell))
+				}
+			case strings.HasPrefix(p.heap, "E$"):
+				cell := fmt.Sprintf("(select %s i)", fv)
+				if wf := x.wfTerm(st, cell, et, 2); wf != "true" {
+					st.assume(fmt.Sprintf("(forall ((i Int)) (! %s :pattern (%s)))", wf, cell))
+				}
+			case strings.HasPrefix(p.heap, "F$"), strings.HasPrefix(p.heap, "P$"):
+				x.assumeWF(st, fv, et)
+			}
+		}
 		x.setHeap(st, p.heap, p.sort, sto(old, p.at, fv))
 	}
 }
